@@ -888,6 +888,34 @@ class Model:
             if not os.environ.get('VERIF_NO_PLAIN'):
                 root.body = plain(root.body)
 
+            # inside `except T as e:` the test isinstance(e, T) is true; in a LATER handler of the same try isinstance(e2, T) is false
+            for tr_ in [x for x in ast.walk(root) if isinstance(x, ast.Try)]:
+                earlier = []
+                for hd in tr_.handlers:
+                    tn = dotted(hd.type) if hd.type is not None and not isinstance(hd.type, ast.Tuple) else None
+                    if hd.name:
+                        rebound = any(isinstance(x, ast.Name) and x.id == hd.name and isinstance(x.ctx, ast.Store) for b in hd.body for x in ast.walk(b))
+                        if not rebound:
+                            for b in hd.body:
+                                for c in [x for x in ast.walk(b) if isinstance(x, ast.Call) and isinstance(x.func, ast.Name) and x.func.id == 'isinstance'
+                                          and len(x.args) == 2 and isinstance(x.args[0], ast.Name) and x.args[0].id == hd.name and dotted(x.args[1])]:
+                                    verdict = True if dotted(c.args[1]) == tn else (False if dotted(c.args[1]) in earlier else None)
+                                    if verdict is not None:
+                                        c.func = ast.Name(id='bool', ctx=ast.Load())
+                                        c.args = [ast.Constant(value=verdict)]
+                    if tn:
+                        earlier.append(tn)
+
+            class _FoldBool(ast.NodeTransformer):
+                def visit_Call(self, node):
+                    self.generic_visit(node)
+                    if isinstance(node.func, ast.Name) and node.func.id == 'bool' and len(node.args) == 1 and isinstance(node.args[0], ast.Constant) \
+                            and isinstance(node.args[0].value, bool) and not node.keywords:
+                        return ast.copy_location(ast.Constant(value=node.args[0].value), node)
+                    return node
+            _FoldBool().visit(root)
+            ast.fix_missing_locations(root)
+
             class _FoldIfExp(ast.NodeTransformer):
                 def visit_IfExp(self, node):
                     self.generic_visit(node)
